@@ -37,13 +37,15 @@ import (
 // library ships, plus the application-side consumers those handlers
 // rendezvous with.  The harness is the peer.
 type env struct {
-	sv   *wire.Served
-	mux  *mux.ServeMux
-	ibb  *ibb.Handler
-	lst  *ibb.Listener
-	hist *history.Handler
-	rcpt *receipts.Handler
-	muc  *muc.Client
+	sv  *wire.Served
+	mux *mux.ServeMux
+	ibb *ibb.Handler
+	lst *ibb.Listener
+	// the application has closed the listener
+	lstClosed bool
+	hist      *history.Handler
+	rcpt      *receipts.Handler
+	muc       *muc.Client
 
 	ctx    context.Context
 	cancel context.CancelFunc
